@@ -33,7 +33,8 @@ From Soy Require Import Model.Bytes Model.Num Model.Values Model.Outcome Model.A
   Model.Escape Model.Directives Model.Print Generated.Tables Model.Interp Model.InterpSafety Model.Globals
   Model.Compile Model.ExprPipeline Model.InterpJson Spec.Safety
   Proofs.SafetyPure Proofs.SafetyProofs Proofs.SafetyEntry Proofs.SafetyFuel Proofs.SafetyCompile Proofs.SafetyMono
-  Proofs.SafetyDepth Proofs.SafetyBytes Proofs.SafetyUser Proofs.SafetyExt Proofs.SafetyRefine.
+  Proofs.SafetyDepth Proofs.SafetyBytes Proofs.SafetyUser Proofs.SafetyExt Proofs.SafetyRefine Proofs.SafetyMarker.
+From Soy Require Import Model.JsGen Proofs.SafetyJsGen.
 Open Scope N_scope.
 
 (* ================================================================== *)
@@ -140,13 +141,26 @@ Theorem C06_walk_fuel_depth :
 Proof. exact walk_fuel_depth. Qed.
 Print Assumptions C06_walk_fuel_depth.
 
-(* every run that answers has such a d: a run with fuel f cannot nest more than f calls, so started at call
-   depth 0 the walker capped at f is the walker.  ([e_capped] is the instrument's own marker: the hypothesis
-   excludes a run of the plain walker that ends in an error with exactly that text.) *)
+(* every run that does not run out of fuel has such a d: a run with fuel f cannot nest more than f calls, so
+   started at call depth 0 the walker capped at f is the walker.  ([e_capped] is the instrument's own marker;
+   that the plain walker never ends with it is C06_walk_never_capped below, so "the fuel sufficed" is the only
+   hypothesis.) *)
 Theorem C06_answer_has_depth :
-  forall cf f n st, depth_ st = 0%nat -> is_answer (fst (walk cf f n st)) -> run_depth_le cf f n st.
-Proof. exact walk_answer_has_depth. Qed.
+  forall cf f n st, depth_ st = 0%nat -> fst (walk cf f n st) <> OutOfFuel -> run_depth_le cf f n st.
+Proof. exact walk_answer_has_depth_nofuel. Qed.
 Print Assumptions C06_answer_has_depth.
+
+(* the error texts of the plain walker: an [Err e] of [Interp.walk] carries one of the finitely many texts of
+   [walker_texts] (the constants Model/Interp.v fails with and those of the pure helpers it lifts), whatever
+   the configuration, node, state and fuel; the marker of the depth instrument is not one of them *)
+Theorem C06_walk_err_text :
+  forall cf f n st e, fst (walk cf f n st) = Err e -> walker_text e = true.
+Proof. exact walk_err_text. Qed.
+Print Assumptions C06_walk_err_text.
+Theorem C06_walk_never_capped :
+  forall cf f n st, fst (walk cf f n st) <> Err e_capped.
+Proof. exact walk_never_capped. Qed.
+Print Assumptions C06_walk_never_capped.
 
 (* the three facts behind it.  (a) the budget pays for every run that stays within d nested calls:
    started at call depth k <= d with tree_height n + reg_height * (d - k) fuel, the capped walker ends at
@@ -555,3 +569,37 @@ Print Assumptions C06_range_pinned_step0_diverges.
 Theorem C06_range_pinned_overflow_diverges : forall fuel, range_loop_pinned fuel 0 max_int two62 = Diverge.
 Proof. intros fuel. apply range_pinned_overflow_diverges. Qed.
 Print Assumptions C06_range_pinned_overflow_diverges.
+
+(* ================================================================== *)
+(* The JavaScript generator: soyjs.Write                               *)
+(* ================================================================== *)
+(* soyjs.Write runs under `defer errRecover(&err)`, and soyjs's errRecover turns EVERY recovered panic value
+   into the returned error (unlike soyhtml's, it does not re-panic run-time errors).  So for Go "Write returns
+   nil or an error" can fail in two ways only: the call does not end, or the run time dies of something recover
+   cannot catch (stack exhaustion).  Model/JsGen.v [gen_file] is a total function with explicit outcomes:
+   [Err] = s.errorf (a deliberate panic, recovered into the error), [Crash] = a RUN-TIME panic inside the
+   generator (it would be recovered into an error too, but it is the generator's defect, not an answer),
+   [Diverge] = a loop without exit, [OutOfFuel] = the recursion budget.  The theorem: whatever the options,
+   the file and the budget, [gen_file] never yields [Crash] or [Diverge] -- in the model recover only ever
+   sees s.errorf's own panics: the only origin of a Crash is scope.go's stack[len-1] on an empty stack, and
+   the walker keeps the scope stack balanced (Hoare triple on its length through every visitor).
+
+   FULL statement (not proved, hence _partial):  forall o name body, exists f0, forall fuel, f0 <= fuel ->
+   gen_file o fuel name body is Ok or Err  -- i.e. a budget of the height of the tree (+ the longest namespace
+   for ns_decls, + the message nesting) suffices, so the Go recursion is bounded by the tree and ends.
+   Missing: the fuel-adequacy induction over Model/JsGen.v's five fuelled fixpoints.  The harness runs
+   soyjs.Write on accepted bundles (deep nests, stale message bundles, failing and panicking writers) in
+   worker subprocesses and observes {nil, error, escaped panic, fatal, hang}.
+   Run-time panics the harness does see recovered ("index out of range" for a builtin called with too few
+   arguments: C14 finding js-write-error-function-arity) are sites Model/JsGen.v models as [Err]. *)
+Theorem C06_js_write_no_escape_partial :
+  forall o fuel name body,
+    match gen_file o fuel name body with Crash _ | Diverge => False | _ => True end.
+Proof. exact gen_file_no_crash. Qed.
+Print Assumptions C06_js_write_no_escape_partial.
+
+(* non-vacuity: a file with a template (let, foreach, call) is generated *)
+Example C06_ex_js_gen :
+  exists cs, gen_file {| o_fmt := ES5; o_msgs := None; o_order := fun l => l |} 50 (b "f.soy")
+    [NNamespace 0 (b "a") 0; NTemplate 0 (b "a.t") (NList 0 [NRawText 0 (b "x")]) 0 false] = Ok cs.
+Proof. eexists. vm_compute. reflexivity. Qed.
